@@ -379,7 +379,7 @@ def user_pool(W):
     ]
 
 
-def rand_ops(rng, cfg, n, allow_bare, session=True):
+def rand_ops(rng, cfg, n, allow_bare, session=True, split_writes=True):
     """Seeded structured history.  `session`: start early, stop last (mostly); otherwise anything goes."""
     W, H = cfg.width, cfg.height
     fp = frames_pool(W, H)
@@ -408,7 +408,7 @@ def rand_ops(rng, cfg, n, allow_bare, session=True):
                 how = "str"
             if how == "log" and rng.random() < 0.6:
                 how = "seg"
-            if how == "py" and rng.random() < 0.4:
+            if how == "py" and split_writes and rng.random() < 0.4:
                 # the same through two writes: the second line only completes with the second write
                 ops.append(("P", lines, "py1"))
                 ops.append(("P", [L.PENDING], "py2"))
@@ -550,7 +550,8 @@ def run(ctx):
     for j in range(n_rand // 2):
         kind, transient, ov, W, H = rng.choice(cfgs)
         cfg = make_cfg(rng, kind, transient, ov, W, H)
-        ops = rand_ops(rng, cfg, rng.randint(1, 40), rng.random() < 0.3, session=False)
+        # (argument-less prints are mixed with restarts only once F19 is repaired: one cause per failing history)
+        ops = rand_ops(rng, cfg, rng.randint(1, 40), BARE_BYPASS == 0 and rng.random() < 0.3, session=False)
         fl = L.Faults(exact=rng.sample(range(30), rng.randint(0, 4)), from_=rng.choice([None, None, rng.randint(0, 30)])) if kind != "status" and rng.random() < 0.6 else None
         chars, _, _ = run_history(ctx, cfg, ops, faults=fl, evaluate=fl is None, tag="arbitrary")
         if j % 4 == 0:
@@ -585,7 +586,9 @@ def run(ctx):
     for j in range(n_with):
         kind, transient, ov, W, H = rng.choice(cfgs)
         cfg = make_cfg(rng, kind, transient, ov, W, H)
-        body = [o for o in rand_ops(rng, cfg, rng.randint(0, 8 if ctx.quick else 14), False, session=False)]
+        # (no split writes here: a line left pending in the FileProxy when the block is left is outside wf —
+        #  'prints end in a new line' — and outside the model)
+        body = [o for o in rand_ops(rng, cfg, rng.randint(0, 8 if ctx.quick else 14), False, session=False, split_writes=False)]
         if kind == "progress" and rng.random() < 0.7:
             pass
         # number of fault-injectable calls in the fault-free run
@@ -630,7 +633,7 @@ class _SpecAnswer:
 def _progress_prestart(ctx, cfg, rng):
     """add tasks, then `with progress:` with a fault at every call index (the first ones fall inside start())."""
     ntasks = rng.randint(1, 3)
-    body = prepare(cfg, rand_ops(rng, cfg, rng.randint(0, 5), False, session=False))
+    body = prepare(cfg, rand_ops(rng, cfg, rng.randint(0, 5), False, session=False, split_writes=False))
     pre = [("A", f"t{i}", True) for i in range(ntasks)]
     for k in [None] + list(range(0, 2 * ntasks + 2)):
         faults = L.Faults(exact=[] if k is None else [k])
